@@ -27,9 +27,9 @@ func (c20) ID() string { return "C20" }
 
 func (c20) NumCases(tier string) int {
 	if tier == "thorough" {
-		return 300000
+		return c20ShortHistories() + 300000
 	}
-	return 12000
+	return c20ShortHistories() + 12000
 }
 
 var c20Ordinary = []string{"x", "X", "_y1", "IFS", "HOME"}
@@ -38,7 +38,47 @@ var c20Positional = []string{"1", "2", "9", "10", "11", "00", "01", "000", "9223
 var c20Values = []string{"", "0", "1", "7", "42", "-3", "abc", "a b", "08", " ", "é"}
 var c20Words = []string{"w", "", "a b", "5", "$X", "'q'"}
 
+// c20Alphabet: the reduced operation alphabet whose histories of length 1..3 are enumerated exhaustively.
+var c20Alphabet = []Op{
+	{Op: "set", Name: "x", Value: "1"}, {Op: "set", Name: "X", Value: "a b"}, {Op: "set", Name: "1", Value: "v"}, {Op: "set", Name: "#", Value: "9"},
+	{Op: "unset", Name: "x"}, {Op: "unset", Name: "X"},
+	{Op: "expand", Name: "x", Value: "${x:=w}"}, {Op: "expand", Name: "x", Value: "${x:?}"}, {Op: "expand", Name: "x", Value: "$((x+=1))"}, {Op: "expand", Name: "1", Value: "${1:=w}"},
+	{Op: "eval", Name: "x", Value: "x=5"}, {Op: "eval", Name: "X", Value: "X++"},
+	{Op: "args", Args: []string{"sh", "q"}}, {Op: "opts", Opts: uint(interp.NoUnset | interp.XTrace)},
+}
+
+func c20ShortHistories() int {
+	n, t := len(c20Alphabet), 0
+	for l, p := 1, n; l <= 3; l, p = l+1, p*n {
+		t += p
+	}
+	return t
+}
+
+func init() {
+	exhaustive["C20"] = func(tier string) map[string]int { return map[string]int{"short-history<=3": c20ShortHistories()} }
+}
+
 func (p c20) Gen(seed uint64, tier string, idx int) (*Case, bool) {
+	if idx < c20ShortHistories() {
+		// exhaustive: all histories of 1..3 operations over the reduced alphabet
+		n := len(c20Alphabet)
+		l, i := 1, idx
+		for pw := n; i >= pw; pw *= n {
+			i -= pw
+			l++
+		}
+		c := &Case{Kind: "history", Args: []string{"sh", "p1"}, Note: "short-history<=3"}
+		ops := make([]Op, l)
+		for k := l - 1; k >= 0; k-- {
+			ops[k] = c20Alphabet[i%n]
+			ops[k].Observe = (idx + k) % 3 // observation pattern varies with the index; the last step always observes everything
+			i /= n
+		}
+		c.History = ops
+		return c, true
+	}
+	idx -= c20ShortHistories()
 	return p.build(gen.FromSeed(gosim.Mix(seed, 0xC20, uint64(idx)))), true
 }
 
